@@ -4,3 +4,4 @@ import TunnelModel.Negotiate
 import TunnelModel.Method
 import TunnelModel.IdRules
 import TunnelModel.RoundRobin
+import TunnelModel.FlowStep
